@@ -8,7 +8,8 @@ end-to-end Prefix/EOFOnlyAfterAll and close propagation for all interleavings; t
 (origin-side cut with the code as it is; a full-close endpoint with an application that closes before the exchange is
 complete) are kept as documented counter-examples that must still fail.
 Conformance: real meshes (chains of 1..4 hops, a diamond) over memnet links that lose, duplicate, delay and re-order
-data frames from the seed, with a link on the active path cut mid-transfer while an alternative exists (endpoint-
+data frames from the seed, while a third node sends both ends transient unreachable notices ('message expired', 'blocked by
+firewall') about the stream's own addresses (they must not end the stream), with a link on the active path cut mid-transfer while an alternative exists (endpoint-
 adjacent and transit); both applications write f(direction, offset)-patterned bytes with seeded write sizes and read
 with seeded buffer sizes; the same transfers through the control service's connect bridge (real controlsvc on a Unix
 socket) and through a TCPProxyServiceInbound/Outbound pair. Every Write/Read/Close/EOF is logged and the logs are
@@ -17,6 +18,7 @@ import os, re, shutil
 import vlib
 
 ASIS = {
+    "Stream_noticefatal.cfg": "NoSpontaneousClose",   # a transient notice must not close the writing side (seeded change c03-any-unreach-cancels-stream)
     "Stream_origincut.cfg": "NoAbort",            # DESIGN.md section 9 #17, open finding
     "Bridge_connect_any.cfg": "E2EEOFOnlyAfterAll",   # inherent to a full-close endpoint: not demanded
     "Bridge_proxyout_any.cfg": "E2EEOFOnlyAfterAll",
@@ -42,6 +44,7 @@ def run(tier, seed, replay=None):
     fa = {c: pool.submit(vlib.tlc, c.split("_")[0], c, wd, workers=2, timeout=600) for c in ASIS}
     fw = [pool.submit(vlib.witnesses, "Stream", "Stream_quick.cfg", ["W_NoEOF"], wd, workers=2),
           pool.submit(vlib.witnesses, "Stream", "Stream_origincut.cfg", ["W_NoAbort"], wd, workers=2),
+          pool.submit(vlib.witnesses, "Stream", "Stream_quick.cfg", ["W_NoNotice"], wd, workers=2),
           pool.submit(vlib.witnesses, "Bridge", "Bridge_tcp_orderly.cfg", ["W_NoBothEOF", "W_NoFullClose"], wd, workers=2)]
     states = trans = 0
     tlc_runs = {}
@@ -65,6 +68,8 @@ def run(tier, seed, replay=None):
         v.violation(viol["sig"], viol["what"], viol["replay"])
     if res.get("inconclusive") and not res["violations"]:
         raise vlib.Inconclusive("c03 harness: " + "; ".join(res["inconclusive"][:4]))
+    if not res["violations"] and (res.get("counters") or {}).get("notices_seen_by_stream_sockets", 0) == 0:
+        raise vlib.Inconclusive("no injected unreachable notice reached a stream's socket (vacuous)")
 
     trace = os.path.join(wd, "stream.ndjson")
     lines = vlib.read_ndjson(trace) if os.path.exists(trace) else []
